@@ -313,7 +313,9 @@ def standard_scenarios(seed, tier, hosts=('HsmEventProcessor',), spy_options=(Fa
     total = n_random or (1500 if tier == 'quick' else 40000)
     for k in range(total):
         if with_queries and k % 2:
-            sc = gen_scenario(rnd, n=rnd.randint(2, 7), host=hosts[k % len(hosts)], nevents=rnd.randint(2, 6))
+            h = hosts[k % len(hosts)]
+            sc = gen_scenario(rnd, n=rnd.randint(2, 7), host=h, nevents=rnd.randint(2, 6),
+                              spy=(h != 'HsmEventProcessor' and spy_options[-1]))
             sc['queries'] = 'all' if k % 4 == 1 else 'some'
             yield sc
             continue
@@ -375,6 +377,11 @@ def query_step(sc):
                     raise QueryFailure('after step %d: child_state(st%d) failed although it encloses st%d' % (k, x, cur))
         if chart.state.fun is not handlers[cur] and chart.state.fun is not raw[cur]:
             raise QueryFailure('queries changed the current state')
+        if getattr(chart, 'state_name', names[cur]) != names[cur]:
+            raise QueryFailure('after the queries state_name is %r, the current state is %r [spied]' % (
+                chart.state_name, names[cur]))
+        if hasattr(chart, 'state_fn') and chart.state_fn is not handlers[cur] and chart.state_fn is not raw[cur]:
+            raise QueryFailure('after the queries state_fn is not the current state\'s handler [spied]')
     return cb
 
 
@@ -383,5 +390,85 @@ def run_and_check(sc, aspects):
     try:
         res = run_chart(sc, on_step=query_step(sc) if sc.get('queries') else None)
     except QueryFailure as q:
-        return False, str(q), 'query'
+        return False, str(q), '[spied]' if '[spied]' in str(q) else 'query'
     return check_uml(sc, res, aspects)
+
+
+# ------------------------------------------------------------------ instrumentation oracles (C18-C21, C23)
+def run_instrumented(sc, clock=None):
+    """Run a scenario on an instrumented host with an independent invocation log (taken inside the undecorated
+    functions) and, optionally, live callbacks and a substituted clock.  Returns per-step observations."""
+    from miros.event import Event, signals, return_status
+    import miros.hsm as hsm
+    rec = Recorder()
+    inv = []            # (signal_name, state_name, status) of every invocation of an undecorated state function
+    handlers, raw, names = build_handlers(sc, rec, None)
+    # wrap the undecorated functions once more to log invocations: rebuild with logging raw functions
+    n = len(sc['parent'])
+    logged = []
+    for s in range(n):
+        def mk(s):
+            inner = raw[s]
+
+            def f(chart, e):
+                st = inner(chart, e)
+                inv.append((e.signal_name, names[s], st))
+                return st
+            f.__name__ = names[s]
+            return f
+        logged.append(mk(s))
+    if sc.get('spy'):
+        for s in range(n):
+            handlers[s] = hsm.spy_on(logged[s])
+    else:
+        for s in range(n):
+            handlers[s] = logged[s]
+    saved_clock = hsm.stdlib_datetime
+    if clock is not None:
+        hsm.stdlib_datetime = clock
+    try:
+        chart = make_host(sc)
+        live_spy, live_trace = [], []
+        if hasattr(chart, 'register_live_spy_callback'):
+            chart.live_spy, chart.live_trace = bool(sc.get('live_spy')), bool(sc.get('live_trace'))
+            chart.register_live_spy_callback(live_spy.append)
+            chart.register_live_trace_callback(live_trace.append)
+        steps = []
+
+        def snap(sig):
+            steps.append({'sig': sig, 'actions': rec.actions[:], 'inv': inv[:],
+                          'rtc_spy': list(chart.rtc.spy) if hasattr(chart, 'rtc') else None,
+                          'full_spy': list(chart.full.spy) if hasattr(chart, 'full') else None,
+                          'trace': list(chart.full.trace) if hasattr(chart, 'full') else None,
+                          'live_spy': live_spy[:], 'live_trace': live_trace[:],
+                          'state_name': getattr(chart, 'state_name', None), 'cur': _cur(chart, handlers, logged),
+                          'current_state': chart.current_state() if hasattr(chart, 'current_state') else None})
+            del rec.actions[:], inv[:], live_spy[:], live_trace[:]
+        chart.start_at(handlers[sc['start']])
+        snap(None)
+        for sg in sc['events']:
+            ev = Event(signal=sg)
+            if hasattr(chart, 'post_fifo'):
+                chart.post_fifo(ev)
+                chart.next_rtc()
+            else:
+                chart.dispatch(ev)
+            snap(sg)
+        return steps, chart
+    finally:
+        hsm.stdlib_datetime = saved_clock
+
+
+INNER = ('ENTRY_SIGNAL', 'EXIT_SIGNAL', 'INIT_SIGNAL', 'REFLECTION_SIGNAL', 'EMPTY_SIGNAL', 'SEARCH_FOR_SUPER_SIGNAL')
+
+
+def expected_spy_lines(invocations):
+    from miros.event import return_status
+    out = []
+    for sig, state, status in invocations:
+        if sig == 'REFLECTION_SIGNAL':
+            continue
+        out.append('%s:%s' % (sig, state))
+        if sig not in INNER and status == return_status.HANDLED:
+            out.append('%s:%s:HOOK' % (sig, state))
+    return out
